@@ -20,6 +20,12 @@ package main
 //   order    <curve>                                 -> bits: e(G1,G2)^r == 1, e(G1,G2) != 1
 //   reuse    <curve> a b                             -> bit  PairFixedQ twice with the SAME lines object gives the same value
 //                                                       (not generated for C05: known defect, belongs to C18)
+//   hist     <curve> <k> <n> b_1..b_k (<kind> a_1..a_k)×n   CALL HISTORY on shared precomputed lines: lines of Q_j = [b_j]G2 are computed once,
+//                                                       the SAME slice (same backing array) is passed to n consecutive fixed-argument calls,
+//                                                       call i on P_j = [a_ij]G1 via kind = ml (FE∘MillerLoopFixedQ) | pf (PairFixedQ) | cf (PairingCheckFixedQ).
+//                                                       Answer per call `<bits>:<u>`: ml/pf two bits (value == Pair(P,Q), value == e(G1,G2)^Σab),
+//                                                       cf the verdict; u = lines AND points identical to the snapshot taken before the first call.
+//                                                       Model: each call answered from its own arguments (by value), u = 1.
 // err:size is answered only when ALL of Pair, PairingCheck, MillerLoop, PairFixedQ, PairingCheckFixedQ, MillerLoopFixedQ
 // (and, on bw6-761, MillerLoopDirect) return an error; a partial error pattern is rendered `err-mismatch:<bits>`
 // (bit order as listed, 1 = error). On bw6-761 bit1 of `variants` also demands FinalExponentiation(MillerLoopDirect(P,Q)) == V.
@@ -59,6 +65,7 @@ type pairingAPI struct {
 	order    func() string
 	point    func(which int, a *big.Int) string
 	reuse    func(a, b *big.Int) string
+	hist     func(b []*big.Int, kinds []string, as [][]*big.Int) string
 }
 
 var pairings = map[string]*pairingAPI{}
@@ -278,6 +285,48 @@ func newPairing[G1, G2, GT, L any](
 		v2, _ := pairF(P, l)
 		return boolStr(ops.eq(&v1, &v2))
 	}
+	api.hist = func(b []*big.Int, kinds []string, as [][]*big.Int) string {
+		_, Q := points(nil, b)
+		l := lines(Q) // once: every call below gets this very slice
+		snap := append([]L(nil), l...)
+		g, _ := pair([]G1{base1(big.NewInt(1))}, []G2{base2(big.NewInt(1))})
+		var out []string
+		for i, kind := range kinds {
+			P, _ := points(as[i], nil)
+			P0 := append([]G1(nil), P...)
+			V, err := pair(P, Q)
+			if err != nil {
+				return "err:other"
+			}
+			W := ops.exp(g, sumAB(as[i], b))
+			var bits string
+			switch kind {
+			case "ml":
+				m, err := millerF(P, l)
+				if err != nil {
+					return "err:other"
+				}
+				v := fe(&m)
+				bits = boolStr(ops.eq(&v, &V)) + boolStr(ops.eq(&v, &W))
+			case "pf":
+				v, err := pairF(P, l)
+				if err != nil {
+					return "err:other"
+				}
+				bits = boolStr(ops.eq(&v, &V)) + boolStr(ops.eq(&v, &W))
+			case "cf":
+				c, err := checkF(P, l)
+				if err != nil {
+					return "err:other"
+				}
+				bits = boolStr(c)
+			default:
+				return "bad-op"
+			}
+			out = append(out, bits+":"+boolStr(reflect.DeepEqual(l, snap) && reflect.DeepEqual(P, P0)))
+		}
+		return strings.Join(out, " ")
+	}
 	pairings[name] = api
 }
 
@@ -461,6 +510,38 @@ func execC05(a []string) string {
 		default:
 			return api.check(as, bs)
 		}
+	case "hist":
+		if len(a) < 4 {
+			return "bad-op"
+		}
+		k, ok1 := parseSmall(a[2])
+		n, ok2 := parseSmall(a[3])
+		if !ok1 || !ok2 || k == 0 || k > 8 || n == 0 || n > 8 || len(a) != 4+k+n*(k+1) {
+			return "bad-op"
+		}
+		var bs []*big.Int
+		var kinds []string
+		var as [][]*big.Int
+		for i, t := range a[4:] {
+			if i >= k && (i-k)%(k+1) == 0 {
+				if t != "ml" && t != "pf" && t != "cf" {
+					return "bad-op"
+				}
+				kinds = append(kinds, t)
+				as = append(as, nil)
+				continue
+			}
+			v, ok := parseSBig(t)
+			if !ok {
+				return "bad-op"
+			}
+			if i < k {
+				bs = append(bs, v)
+			} else {
+				as[len(as)-1] = append(as[len(as)-1], v)
+			}
+		}
+		return api.hist(bs, kinds, as)
 	case "bilin", "bilinv", "reuse":
 		if len(a) != 4 {
 			return "bad-op"
@@ -700,6 +781,63 @@ func genC05(g *gen) {
 				g.c05Line("check", curve, as2, bs2)
 			}
 		}
+		// call HISTORIES on shared precomputed lines: k = 1..3 (thorough 5) pairs, the same lines slice through 2-3 consecutive calls of
+		// each fixed-argument entry point and through mixed sequences, a fresh P vector per call (for cf: every other one with Σab ≡ 0)
+		for k := 1; k <= g.budget(3, 5); k++ {
+			for rep := 0; rep < g.budget(1, 3); rep++ {
+				seqs := [][]string{{"ml", "ml", "ml"}, {"pf", "pf"}, {"cf", "cf", "cf"}}
+				kinds := []string{"ml", "pf", "cf"}
+				for m := 0; m < 2; m++ {
+					var sq []string
+					for i := 0; i < 2+g.rng.intn(2); i++ {
+						sq = append(sq, kinds[g.rng.intn(3)])
+					}
+					seqs = append(seqs, sq)
+				}
+				if g.thorough() {
+					seqs = append(seqs, []string{"ml", "pf", "cf", "ml", "pf", "cf"}, []string{"pf", "pf", "pf", "cf"}, []string{"cf", "ml", "ml"})
+				}
+				for _, sq := range seqs {
+					var bs []*big.Int
+					for i := 0; i < k; i++ {
+						bs = append(bs, c05Scalar(g, r))
+					}
+					w := []string{}
+					for _, v := range bs {
+						w = append(w, sHex(v))
+					}
+					for ci, kind := range sq {
+						var as []*big.Int
+						for i := 0; i < k; i++ {
+							as = append(as, c05Scalar(g, r))
+						}
+						if kind == "cf" && (ci+rep)%2 == 0 {
+							// solve the last a for Σ a_i b_i ≡ 0 (b_k invertible), k = 1: a multiple of r
+							bk := new(big.Int).Mod(bs[k-1], r)
+							if k == 1 || bk.Sign() == 0 {
+								as[k-1] = new(big.Int).Mul(r, big.NewInt(int64(g.rng.intn(3))))
+								if bk.Sign() == 0 && k > 1 {
+									as[k-1] = c05Scalar(g, r)
+								}
+							}
+							if k > 1 && bk.Sign() != 0 {
+								sum := new(big.Int)
+								for i := 0; i < k-1; i++ {
+									sum.Add(sum, new(big.Int).Mul(as[i], bs[i]))
+								}
+								sum.Neg(sum).Mod(sum, r)
+								as[k-1] = sum.Mul(sum, new(big.Int).ModInverse(bk, r)).Mod(sum, r)
+							}
+						}
+						w = append(w, kind)
+						for _, v := range as {
+							w = append(w, sHex(v))
+						}
+					}
+					g.emit("C05 hist %s %d %d %s", curve, k, len(sq), join(w))
+				}
+			}
+		}
 		// the classical e(aG1, bG2)·e(−abG1, G2) = 1
 		for rep := 0; rep < g.budget(1, 3); rep++ {
 			a, b := c05Scalar(g, r), c05Scalar(g, r)
@@ -788,4 +926,11 @@ func genC05(g *gen) {
 	g.emit("C05 reuse bn254 1")
 	g.emit("C05 order bn254 1")
 	g.emit("C05 frobnicate bn254 1 1")
+	g.emit("C05 hist bn254 1 1 1 zz 1")                                         // unknown kind
+	g.emit("C05 hist bn254 0 1 pf")                                             // k = 0
+	g.emit("C05 hist bn254 1 0 1")                                              // no call
+	g.emit("C05 hist bn254 2 2 1 2 pf 1 2 ml 1")                                // arity
+	g.emit("C05 hist bn254 1 1 1 pf G")                                         // not a scalar
+	g.emit("C05 hist bn254 1 9 1 pf 1 pf 1 pf 1 pf 1 pf 1 pf 1 pf 1 pf 1 pf 1") // too many calls
+	g.emit("C05 hist bn254")
 }
